@@ -208,3 +208,33 @@ PROPS["C01"] = dict(units=c01_units, bounds_text="every second of each listed ci
 PROPS["C06"] = dict(units=c06_units, bounds_text="month tables of the listed lunar years (structure: concrete evaluation); navigation |n|<=30 (quick) / 150 (thorough) from every month of each listed year", outside="years not listed")
 PROPS["C07"] = dict(units=c07_units, bounds_text="NewSolar: y in 1..9998, other args in [-2^31,2^31]; NewLunar/NewTao/NewFoto: month -14..14, day -2..33, time box, each listed year", outside="lunar years not listed")
 PROPS["C17"] = dict(units=c17_units, bounds_text="every second of each listed civil year", outside="years not listed")
+
+
+ERAS = [(1, 1581), (1582, 1582), (1583, 1599), (1600, 9998)]
+
+
+def cube_em(harness, pid, params, months=range(1, 13), eras=ERAS, skip=None, **kw):
+    """cube on (calendar era of the year, civil month): removes the Julian/Gregorian and leap-rule case splits from every query"""
+    us = []
+    for (lo, hi) in eras:
+        for m in months:
+            p = dict(params)
+            p.update({"YLO": lo, "YHI": hi})
+            if skip and skip(lo, hi, m):
+                continue
+            us.append(dict(id=f"{pid}[y={lo}..{hi},m={m}]", harness=harness, params=p, concrete={"v_m": m}, **kw))
+    return us
+
+
+def c15_units(tier, seed):
+    q = tier == "quick"
+    us = cube_em("calendar.VH_C15_Week", "C15a", {})
+    us += cube_em("calendar.VH_C15_WeekNextSeparate", "C15c", {}, skip=lambda lo, hi, m: lo == 1582 and 9 <= m <= 11)
+    us += cube_em("calendar.VH_C15_MonthWeeks", "C15e", {}, skip=lambda lo, hi, m: lo == 1582 and m == 10)
+    us += cube_em("calendar.VH_C15_WeekNext", "C15b", {"N": 8 if q else 100})
+    us += cube_em("calendar.VH_C15_Month", "C15d", {"K": 1000000})
+    return us
+
+
+PROPS["C15"] = dict(units=c15_units, bounds_text="all dates y in 1..9998 (year symbolic), all 7 week starts; whole-week steps |n|<=8 (quick) / 100 (thorough); month/season steps |n|<=10^6; month-separated week stepping: single steps +1/-1/0 from every week (composition by induction on positions)",
+                    outside="month-separated stepping around October 1582 (Sep-Nov 1582 excluded); multi-step Next(n,true) is covered only through the one-step law")
